@@ -863,6 +863,21 @@ func (sb *Sandbox) HrefSegs(href string) ([]string, string) {
 	}
 	segs := strings.Split(p[1:], "/")
 	if len(sb.Prefix) > 0 {
+		// a private subtree of a shared root: the href is normalised (empty and "." segments dropped, ".." resolved) before the
+		// subtree's prefix is taken off; without a prefix the raw segments go to the specification, which normalises itself
+		var cl []string
+		for _, x := range segs {
+			switch x {
+			case "", ".":
+			case "..":
+				if len(cl) > 0 {
+					cl = cl[:len(cl)-1]
+				}
+			default:
+				cl = append(cl, x)
+			}
+		}
+		segs = cl
 		if len(segs) < len(sb.Prefix) {
 			return []string{}, "outside-prefix"
 		}
